@@ -162,18 +162,17 @@ inline bool mpsRowsLineWithoutName(const std::string& text)
    return false;
 }
 
-// ---- exclusion protocol for known finding `rat-exponent-overflow` (ratFromString multiplies by the double
-// pow(10, exponent); for an exponent above 308 that is +inf and assigning it to a GMP rational raises SIGFPE):
-// true if the text contains e/E, an optional '+', and a decimal exponent > 308. Over-approximates (the characters
-// may sit in a name), which only costs a few skipped inputs; skipped inputs are counted.
-inline bool hasHugeExponent(const std::string& s)
+// ---- exclusion protocol for known finding `rat-exponent-unbounded` (ratFromString computes 10^|exponent| exactly and
+// without bound: "1e999999999" costs 100 s and 0.4 GB; before fix c171516 every exponent above 308 died with SIGFPE):
+// true if the text contains e/E, an optional sign, and a decimal exponent above `limit`. Over-approximates (the
+// characters may sit in a name), which only costs a few skipped inputs; skipped inputs are counted.
+inline bool hasHugeExponent(const std::string& s, long limit = 1000000)
 {
    for(size_t i = 0; i + 1 < s.size(); i++)
    {
       if(s[i] != 'e' && s[i] != 'E') continue;
       size_t k = i + 1;
-      if(s[k] == '+') k++;
-      else if(s[k] == '-') continue;
+      if(s[k] == '+' || s[k] == '-') k++;
       long v = 0;
       int nd = 0;
       // the LP-format reader deletes blanks inside a line before it tokenizes: "1e308 1" is the literal 1e3081
@@ -186,11 +185,10 @@ inline bool hasHugeExponent(const std::string& s)
          }
          else if(s[k] != ' ' && s[k] != '\t') break;
       }
-      if(v > 308) return true;
+      if(v > limit) return true;
    }
    return false;
 }
-
 // ---- exclusion protocol for known finding `rat-denominator-unchecked` (ratFromString hands "p/q" to GMP unchecked:
 // p/0 is stored with denominator zero, p/-q with a negative one; the next arithmetic on such a number is undefined
 // behaviour inside GMP - leak, stack overflow, SEGV in mpn_copyi): true if the text contains '/' followed (after
@@ -217,6 +215,37 @@ inline bool hasClosingBracket(const std::string& s)
 {
    return s.find(']') != std::string::npos;
 }
+// ---- exclusion protocol for known finding `read-exception-leak` (readLPF/readMPS/readBasis allocate private NameSets
+// when the caller passes nullptr and free them only on the normal return path; an exception thrown while reading -
+// zstr::Exception on a corrupt gz/zlib stream, std::exception from the Rational parser - leaks them): while a reader
+// runs with nullptr name sets, LeakSanitizer does not record allocations (ASan and UBSan stay active). Counted.
+#if defined(__has_feature)
+#if __has_feature(address_sanitizer)
+#define VFZ_HAVE_LSAN 1
+#endif
+#endif
+#ifdef VFZ_HAVE_LSAN
+extern "C" void __lsan_disable();
+extern "C" void __lsan_enable();
+#endif
+struct LeakScope
+{
+   bool on;
+   explicit LeakScope(bool nullNames) : on(nullNames && known("read-exception-leak"))
+   {
+      if(!on) return;
+      count("excluded_known.read-exception-leak(leak check off for a nullptr-names call)");
+#ifdef VFZ_HAVE_LSAN
+      __lsan_disable();
+#endif
+   }
+   ~LeakScope()
+   {
+#ifdef VFZ_HAVE_LSAN
+      if(on) __lsan_enable();
+#endif
+   }
+};
 // ---- exclusion protocol for known finding `settings-nan-sigfpe` (std::stod accepts "nan"; NaN passes
 // setRealParam's range test and is assigned to a GMP rational => SIGFPE, cf. S7): true if the text contains "nan"
 // in any letter case. Over-approximates; skipped inputs are counted.
